@@ -3,14 +3,18 @@
  *   "-" and "--" and everything not starting with '-'  -> positional, in order
  *   "--name" / "--name=value" (split at the first '=' at or after index 2; name may be empty) -> named[name] += value|""
  *   "-abc"  -> named["a"] += "", named["b"] += "", named["c"] += ""   (one flag per character)
- * Every token is classified exactly once: positional.size() and named.size() equal the reference's number of positionals
- * and of distinct names, and for a SYMBOLIC reference entry (any of them) the stored argument at (positional index) resp.
- * (name, k-th value of that name) exists with the same text, the name's value list has the reference's length, and
- * nothing is marked used. */
+ * The parsed object is interrogated with ONE query per solver run (concrete per cell, so that the wrapper's control flow
+ * is concrete): QKIND 1 = positional.at(QIDX); QKIND 2 = named.at(key).at(QIDX) for a SYMBOLIC key of KLEN bytes chosen
+ * independently of the tokens (so absent names are covered as well). Together with positional.size() and named.size()
+ * (checked in every run) the queries over all (QIDX, KLEN) pin down both containers completely: every token is classified
+ * exactly once, in order, and nothing is marked used. */
 #include "harness.h"
 #define TOKW 4
 #define MAXREC 10
 int64_t w_classify(uint8_t* toks, uint64_t* lens, uint64_t ntok, uint32_t kind, uint64_t idx, uint8_t* name, uint64_t namelen, uint64_t* info, uint8_t* text_out);
+#ifndef KLEN
+#define KLEN 0
+#endif
 #ifndef L1
 #define L1 0
 #endif
@@ -64,23 +68,30 @@ void harness(void) {
 
   int ndistinct = 0;
   for (int i = 0; i < ne; i++) if (e[i].kind == 2 && e[i].idx == 0) ndistinct++;
-  ASSERT(ne >= 1 || NTOK == 0, "reference: every token yields at least one entry");
 
-  /* pick any reference entry */
-  int pick = (int)in_range(0, MAXREC - 1);
-  ASSUME(pick < ne);
-  int same_name = 0;
-  for (int j = 0; j < ne; j++) if (e[pick].kind == 2 && e[j].kind == 2 && same(e[j].name, e[j].nl, e[pick].name, e[pick].nl)) same_name++;
+  uint8_t key[TOKW] = {0};
+  for (int i = 0; i < KLEN; i++) key[i] = in_u8(); /* any bytes, NUL included */
+  /* reference answer to the query */
+  int ref = -1, nsame = 0;
+  for (int i = 0; i < ne; i++) {
+    if (QKIND == 1 && e[i].kind == 1 && e[i].idx == QIDX) ref = i;
+    if (QKIND == 2 && e[i].kind == 2 && same(e[i].name, e[i].nl, key, KLEN)) { nsame++; if (e[i].idx == QIDX) ref = i; }
+  }
   uint64_t info[4] = {0, 0, 0, 0};
   uint8_t text[TOKW] = {0};
-  int64_t r = w_classify(toks, lens, NTOK, e[pick].kind, e[pick].idx, e[pick].name, e[pick].nl, info, text);
+  int64_t r = w_classify(toks, lens, NTOK, QKIND, QIDX, key, KLEN, info, text);
   OBS(r); OBS(info[0]); OBS(info[1]); OBS(info[2]); OBS(info[3]);
   ASSERT(info[0] == (uint64_t)npos, "number of positional arguments equals the reference's");
   ASSERT(info[1] == (uint64_t)ndistinct, "number of distinct option names equals the reference's");
-  ASSERT(r >= 0, "the reference entry is stored (positional index / name and value index exist)");
-  if (r >= 0) {
-    ASSERT(same(text, (int)r, e[pick].text, e[pick].tl), "stored text equals the reference classifier's");
-    if (e[pick].kind == 2) ASSERT(info[2] == (uint64_t)same_name, "the name has as many values as the reference");
-    ASSERT(info[3] == 0, "a freshly parsed argument is not marked used");
+  if (ref < 0) {
+    ASSERT(r == -1, "no such stored argument (index past the end / name never given) => out_of_range");
+    if (QKIND == 2 && nsame > 0) ASSERT(info[2] == (uint64_t)nsame, "the name has as many values as the reference");
+  } else {
+    ASSERT(r >= 0, "the reference entry is stored");
+    if (r >= 0) {
+      ASSERT(same(text, (int)r, e[ref].text, e[ref].tl), "stored text equals the reference classifier's");
+      if (QKIND == 2) ASSERT(info[2] == (uint64_t)nsame, "the name has as many values as the reference");
+      ASSERT(info[3] == 0, "a freshly parsed argument is not marked used");
+    }
   }
 }
